@@ -29,7 +29,7 @@ REPO = Path(os.environ.get("VERIF_REPO", "/repo"))
 FLAG = {"GOOD": ".good", "UNKNOWN": ".unknown", "SUSPECT": ".suspect", "FAIL": ".fail", "MISSING": ".missing"}
 FUNCS = {"gross_range_test": "ioos_qc/qartod.py", "spike_test": "ioos_qc/qartod.py", "rate_of_change_test": "ioos_qc/qartod.py",
          "location_test": "ioos_qc/qartod.py", "density_inversion_test": "ioos_qc/qartod.py",
-         "flat_line_test": "ioos_qc/qartod.py", "speed_test": "ioos_qc/argo.py", "pressure_increasing_test": "ioos_qc/argo.py", "valid_range_test": "ioos_qc/axds.py"}
+         "flat_line_test": "ioos_qc/qartod.py", "qartod_compare": "ioos_qc/qartod.py", "speed_test": "ioos_qc/argo.py", "pressure_increasing_test": "ioos_qc/argo.py", "valid_range_test": "ioos_qc/axds.py"}
 
 
 class Untranslatable(Exception):
@@ -75,6 +75,8 @@ class Tr:
 
     # ---- types of the parameters --------------------------------------------------------------------------------------
     def param_type(self, p):
+        if p == "vectors":
+            return "List (List IoosQc.Cell)"
         if p in ("inp", "lon", "lat", "zinp"):
             t = "List V"
         elif p == "valid_span":
@@ -176,6 +178,8 @@ class Tr:
         raise Untranslatable(f"boolean array expression {src(e)}")
 
     def flag(self, e):
+        if isinstance(e, ast.Name) and self.kind.get(e.id) == "flagvar":
+            return e.id
         if isinstance(e, ast.Attribute) and src(e.value) in ("QartodFlags", "FLAGS") and e.attr in FLAG:
             return FLAG[e.attr]
         raise Untranslatable(f"flag {src(e)}")
@@ -222,6 +226,18 @@ class Tr:
             if all(c == "warnings.catch_warnings()" or c.startswith("np.errstate(") for c in ctx):
                 return self.block(st.body, ind)
             raise Untranslatable(f"with {ctx}")
+        if isinstance(st, ast.Assert) and src(st.test) == "all((s == shapes[0] for s in shapes))" and self.kind.get("shapes") == "shapes":
+            self.emit(ind, "if !(shapes.all fun s => some s == shapes[0]?) then")
+            return self.emit(ind + 1, "throw .assertion")
+        if isinstance(st, ast.Assert) and src(st.test) == "all((v.ndim == 1 for v in vectors))":
+            return None                                                     # one-dimensional vectors: the logical domain
+        if isinstance(st, ast.Expr) and is_call(st.value, "result.fill") and len(st.value.args) == 1 and self.kind.get("result") == "flags":
+            return self.emit(ind, f"result := fillWith result {self.flag(st.value.args[0])}")
+        if isinstance(st, ast.For) and isinstance(st.target, ast.Name) and isinstance(st.iter, ast.Name) and not st.orelse \
+                and (self.kind.get(st.iter.id) == "flaglist" or st.iter.id == "vectors"):
+            self.kind[st.target.id] = "flagvar" if self.kind.get(st.iter.id) == "flaglist" else "vector"
+            self.emit(ind, f"for {st.target.id} in {st.iter.id} do")
+            return self.block(st.body, ind + 1)
         if isinstance(st, ast.Assert):
             t = st.test
             if is_call(t, "isfixedlength") and isinstance(t.args[0], ast.Name) and isinstance(t.args[1], ast.Constant):
@@ -238,6 +254,8 @@ class Tr:
                 return self.emit(ind, f"return {v.func.value.id}")
             if isinstance(v, ast.Name) and self.kind.get(v.id) == "flags":
                 return self.emit(ind, f"return {v.id}")
+            if src(v) == "result.astype('uint8')" and self.kind.get("result") == "flags":
+                return self.emit(ind, "return result")
             if src(v) == "np.ma.masked_array([])":
                 return self.emit(ind, "return []")
             raise Untranslatable(f"return {src(v)}")
@@ -295,6 +313,19 @@ class Tr:
                 return
             if name == "tinp" and src(val) == "mapdates(tinp)":
                 return
+            if src(val) == "[v.shape[0] for v in vectors]":
+                return self.bind(ind, name, "vectors.map fun v => v.length", "shapes")
+            if src(val) == "np.ma.empty(shapes[0])" and self.kind.get("shapes") == "shapes":
+                self.kind[name] = "flags"
+                self.declared.add(name)
+                return self.emit(ind, f"let mut {name} ← maEmpty shapes[0]?")
+            if isinstance(val, ast.List) and val.elts and all(isinstance(e, ast.Attribute) and src(e.value) == "QartodFlags" and e.attr in FLAG for e in val.elts):
+                return self.bind(ind, name, "[" + ", ".join("Flag" + FLAG[e.attr] for e in val.elts) + "]", "flaglist")
+            if isinstance(val, ast.Subscript) and src(val.slice) == "0" and is_call(val.value, "np.where") and len(val.value.args) == 1 \
+                    and isinstance(val.value.args[0], ast.Compare) and isinstance(val.value.args[0].ops[0], ast.Eq) \
+                    and isinstance(val.value.args[0].left, ast.Name) and self.kind.get(val.value.args[0].left.id) == "vector" \
+                    and isinstance(val.value.args[0].comparators[0], ast.Name) and self.kind.get(val.value.args[0].comparators[0].id) == "flagvar":
+                return self.bind(ind, name, f"whereEq {val.value.args[0].left.id} {val.value.args[0].comparators[0].id}", "idx")
             if src(val) == "np.median(np.diff(tinp)).astype('timedelta64[s]').astype(float)":
                 return self.bind(ind, name, "medianStep tinp", "int")
             if src(val) == "(int(test_threshold) / time_interval).astype(int)" and self.kind.get("time_interval") == "int":
